@@ -63,7 +63,16 @@ def base_env():
     return env
 
 
+import threading
+_md_lock = threading.Lock()
+
+
 def manifest_dir():
+    with _md_lock:
+        return _manifest_dir()
+
+
+def _manifest_dir():
     """Render the harness manifest with the dependency path of the tree under test."""
     d = os.path.join(BUILD, "m-" + repo_tag())
     os.makedirs(d, exist_ok=True)
@@ -79,8 +88,11 @@ def manifest_dir():
     want = os.path.join(HARNESS, "src")
     if os.path.islink(link) and os.readlink(link) != want:
         os.unlink(link)
-    if not os.path.exists(link):
-        os.symlink(want, link)
+    if not os.path.lexists(link):
+        try:
+            os.symlink(want, link)
+        except FileExistsError:
+            pass
     return d
 
 
